@@ -156,6 +156,14 @@ def check(run, views, tier):
                                "field type %s names its own hasher: with an unkeyed hash a peer can choose attribute names that collide, and every insert then "
                                "compares against all earlier names (quadratic parse)" % ty[:140], "%s:%s" % (a["file"], a["line"]),
                                key="R-COSTSITES|hasher|%s.%s" % (adt_path, f["name"]))
+        if {"client", "async-client"} & set(F.features):
+            from ..engine import Only
+            from . import c11
+            view = Only(run, "|parse-source")
+            if "async-client" in F.features:
+                c11.check_send(view, F, c11.ASYNC, "async")
+            if "client" in F.features:
+                c11.check_send(view, F, c11.BLOCK, "blocking")
         saved = (run.explanation, run.trusted, run.not_decided)
         K = gr.r_depth(run, F, P)
         run.explanation, run.trusted, run.not_decided = saved
